@@ -143,8 +143,15 @@ class AlarmTime:
 
         If the alarm has been snoozed, this can differ from the TRIGGER property.
         """
-        if self._snooze_until is not None and self._snooze_until > self._trigger:
-            return self._snooze_until
+        if self._snooze_until is not None:
+            trigger = to_datetime(self._trigger)
+            if trigger.tzinfo is None:
+                raise LocalTimezoneMissing(
+                    "A local timezone is required to check if the alarm is snoozed. "
+                    "Use Alarms.set_local_timezone()."
+                )
+            if self._snooze_until > trigger:
+                return self._snooze_until
         return self._trigger
 
 
